@@ -283,7 +283,10 @@ func ReqFromProto(w *proto.WriteRequest) Req {
 			p.Sess = int(*q.SessionId)
 		}
 		p.Cid = q.GetClientIdentity()
-		p.Pkey = q.PartitionKey != nil
+		p.Cidp = q.ClientIdentity != nil && p.Cid == ""
+		if q.PartitionKey != nil {
+			p.SetPartitionKey(*q.PartitionKey)
+		}
 		p.SetDeltas(q.SequenceKeyDelta)
 		for _, ix := range q.SecondaryIndexes {
 			p.Idx = append(p.Idx, IdxE{N: K(ix.IndexName), K: K(ix.SecondaryKey)})
